@@ -38,15 +38,19 @@ CONSTANTS
   MRestoreDual,   \* TRUE: a mesh restored from stored arrays takes the stored dual/Voronoi arrays as well
   MPolyAsHeld,    \* TRUE: Polygon.to_hdf5 stores the points as the object holds them (closed, counter-clockwise)
   MDynAlways,     \* TRUE: a solution without a file writes its per-step dynamics whether or not there are probe points
+  MTransformRebuilds,  \* TRUE: a transformation of a meshed object leaves a mesh whose every derived array belongs to the
+                       \* transformed triangulation (FALSE, mutant: the Voronoi polygons keep their old position)
   MMemoByPath     \* TRUE (mutant): the reader memoises what it loaded by path and serves it again (FALSE: cache-free reader)
 
 VARIABLES kind, shape, saved,
           file,     \* the file system: what the ONE path used by this history currently holds (Nothing = no file)
           loaded, pc,
           memo,     \* what a memoising reader remembers for the path (first thing it loaded); unused by a cache-free reader
+          recomp,   \* the mesh recomputed from the triangulation (sites, elements) of the object that is saved:
+                    \* what Mesh.from_triangulation gives for it (NoMesh when the object has no mesh)
           gen       \* generation: 1 = first object saved under the path, 2 = after the file was removed and the
                     \* path re-used for another object of the same shape (same array shapes, other content)
-vars == <<kind, shape, saved, file, loaded, pc, memo, gen>>
+vars == <<kind, shape, saved, file, loaded, pc, memo, recomp, gen>>
 
 SeqToSet(s) == {s[n] : n \in 1..Len(s)}
 -----------------------------------------------------------------------------
@@ -101,12 +105,20 @@ MeshSeq == <<"sites", "elements", "boundary_indices", "areas", "dual_sites", "vo
             "boundary_edge_indices", "directions", "edge_lengths", "dual_edge_lengths">>
 SymMeshG(g) == [a \in MeshArrays |-> 1000 * (g - 1) + 50 + (CHOOSE n \in 1..12 : MeshSeq[n] = a)]
 SymMesh == SymMeshG(1)
+\* the mesh an object holds after its pre-save history: consistent, unless an in-place translation is not followed by a rebuild
+SymHeldMesh(s, g) == IF MTransformRebuilds \/ s.pre \notin {"translate", "context"} THEN SymMeshG(g)
+                     ELSE [SymMeshG(g) EXCEPT !.voronoi_polygons = 7777]
 SymDevice(s, g) == [name |-> 1, length_units |-> 2,
                  layer |-> [f \in LayerFields |-> IF f = "conductivity" THEN (IF s.cond THEN 47 ELSE 0) ELSE 40 + g],
                  film |-> 10, holes |-> [n \in 1..s.holes |-> 10 + n], terminals |-> [n \in 1..s.terms |-> 20 + n],
                  probe_points |-> IF s.probes > 0 THEN 30 + s.probes + 100 * g ELSE 0,
-                 mesh |-> IF s.mesh THEN SymMeshG(g) ELSE NoMesh]
-DeviceShapes == [holes : 0..2, terms : {0, 2, 3}, probes : {0, 2, 3}, cond : BOOLEAN, mesh : BOOLEAN, savemesh : BOOLEAN]
+                 mesh |-> IF s.mesh THEN SymHeldMesh(s, g) ELSE NoMesh]
+\* pre: what happened to the object between meshing and saving
+\*   "none" | "translate" (translate(inplace=True) of the meshed device) | "context" (saved inside `with device.translation(..)`)
+\*   | "rotate" / "scale" (these drop the mesh; meshed again afterwards)
+Pres == {"none", "translate", "context", "rotate", "scale"}
+DeviceShapes == {s \in [holes : 0..2, terms : {0, 2, 3}, probes : {0, 2, 3}, cond : BOOLEAN, mesh : BOOLEAN, savemesh : BOOLEAN, pre : Pres] :
+                   s.pre # "none" => s.mesh}
 \* the identity of the points the file holds when a polygon is NOT stored as held: some other content
 NotAsHeld(id) == id + 1000
 PolyStored(id) == IF MPolyAsHeld THEN id ELSE NotAsHeld(id)
@@ -127,7 +139,7 @@ DeviceLoadOf(fl) == fl.rec
 
 -----------------------------------------------------------------------------
 (* Mesh                                                                     *)
-MeshShapes == [compress : BOOLEAN]
+MeshShapes == [compress : BOOLEAN, pre : Pres]
 MeshPresent(s) == IF s.compress THEN {"sites", "elements"} ELSE MeshTop
 MeshFileOf(s, sv) == [present |-> MeshPresent(s),
                       rec |-> IF s.compress THEN [a \in MeshArrays |-> IF a \in {"sites", "elements"} THEN sv[a] ELSE 0] ELSE sv]
@@ -171,7 +183,7 @@ SolExpected(s, sv) == [sv EXCEPT !.frames = IF NoFile(s) THEN <<sv.frames[s.cur]
 -----------------------------------------------------------------------------
 Nothing == [none |-> TRUE]
 Init == /\ kind \in Kinds /\ pc = "choose" /\ shape = (IF kind = "options" THEN OptDefault ELSE Nothing)
-        /\ saved = Nothing /\ file = Nothing /\ loaded = Nothing /\ memo = Nothing /\ gen = 1
+        /\ saved = Nothing /\ file = Nothing /\ loaded = Nothing /\ memo = Nothing /\ recomp = NoMesh /\ gen = 1
 
 \* enumeration of the records, one field at a time (fields in declaration order, so every record is reached once)
 Deviate == /\ pc = "choose" /\ kind = "options" /\ Cardinality(Deviating(shape)) < MaxDev
@@ -179,23 +191,25 @@ Deviate == /\ pc = "choose" /\ kind = "options" /\ Cardinality(Deviating(shape))
                 /\ \A g \in Deviating(shape) : Idx(g) < Idx(f)
                 /\ SampledRec([shape EXCEPT ![f] = v])
                 /\ shape' = [shape EXCEPT ![f] = v]
-           /\ UNCHANGED <<kind, saved, file, loaded, pc, memo, gen>>
+           /\ UNCHANGED <<kind, saved, file, loaded, pc, memo, recomp, gen>>
 Shape == /\ pc = "choose" /\ kind # "options" /\ shape = Nothing
          /\ shape' \in (CASE kind = "device" -> DeviceShapes [] kind = "mesh" -> MeshShapes
                           [] kind = "solution" -> {s \in SolShapes : SolOK(s)})
-         /\ UNCHANGED <<kind, saved, file, loaded, pc, memo, gen>>
+         /\ UNCHANGED <<kind, saved, file, loaded, pc, memo, recomp, gen>>
 \* the object exists (built by the binding; symbolic identities in the model-checking runs)
 SymSaved == CASE kind = "options" -> shape [] kind = "device" -> SymDevice(shape, gen)
-              [] kind = "mesh" -> SymMeshG(gen) [] kind = "solution" -> SymSolution(shape, gen)
+              [] kind = "mesh" -> SymHeldMesh(shape, gen) [] kind = "solution" -> SymSolution(shape, gen)
+SymRecomp == CASE kind = "device" -> (IF shape.mesh THEN SymMeshG(gen) ELSE NoMesh) [] kind = "mesh" -> SymMeshG(gen)
+               [] kind = "solution" -> SymSolution(shape, gen).mesh [] OTHER -> NoMesh
 \* (also: after the file was removed, ANOTHER object of the same shape is about to be saved under the same path)
-Materialise(sv) == /\ pc \in {"choose", "removed"} /\ shape # Nothing
-                   /\ saved' = sv /\ pc' = "made"
-                   /\ UNCHANGED <<kind, shape, file, loaded, memo, gen>>
+Materialise(sv, rc) == /\ pc \in {"choose", "removed"} /\ shape # Nothing
+                       /\ saved' = sv /\ recomp' = rc /\ pc' = "made"
+                       /\ UNCHANGED <<kind, shape, file, loaded, memo, gen>>
 Save == /\ pc = "made"
         /\ file' = (CASE kind = "options" -> OptFileOf(saved) [] kind = "device" -> DeviceFileOf(shape, saved)
                       [] kind = "mesh" -> MeshFileOf(shape, saved) [] kind = "solution" -> SolFileOf(shape, saved))
         /\ pc' = "saved"
-        /\ UNCHANGED <<kind, shape, saved, loaded, memo, gen>>
+        /\ UNCHANGED <<kind, shape, saved, loaded, memo, recomp, gen>>
 \* a cache-free reader answers from the file alone
 Fresh == CASE kind = "options" -> OptLoadOf(file) [] kind = "device" -> DeviceLoadOf(file)
            [] kind = "mesh" -> MeshLoadOf(file, saved) [] kind = "solution" -> SolLoadOf(file, saved)
@@ -203,13 +217,13 @@ Load == /\ pc = "saved"
         /\ loaded' = IF MMemoByPath /\ memo # Nothing THEN memo ELSE Fresh
         /\ memo' = IF memo = Nothing THEN Fresh ELSE memo
         /\ pc' = "loaded"
-        /\ UNCHANGED <<kind, shape, saved, file, gen>>
+        /\ UNCHANGED <<kind, shape, saved, file, recomp, gen>>
 \* the file is removed (os.remove / Solution.delete_hdf5); the path is free for the next object
 Remove == /\ pc = "loaded" /\ gen = 1 /\ kind # "options"
           /\ file' = Nothing /\ gen' = 2 /\ pc' = "removed"
-          /\ UNCHANGED <<kind, shape, saved, loaded, memo>>
+          /\ UNCHANGED <<kind, shape, saved, loaded, memo, recomp>>
 
-MMaterialise == Materialise(SymSaved)
+MMaterialise == Materialise(SymSaved, SymRecomp)
 Next == Deviate \/ Shape \/ MMaterialise \/ Save \/ Load \/ Remove
 Spec == Init /\ [][Next]_vars
 
@@ -228,10 +242,18 @@ LoadSaveIdentity == pc = "loaded" => LoadedRec = Expected
 \* an independent reader finds in the file the content the object holds (polygons closed and oriented as held)
 FileHoldsContent == (pc \in {"saved", "loaded"} /\ kind = "device") =>
                        /\ file.rec.film = saved.film /\ file.rec.holes = saved.holes /\ file.rec.terminals = saved.terminals
-\* a mesh restored from stored arrays and one recomputed from the triangulation are the same mesh
-MeshRestoredEqualsRecomputed == (pc = "loaded" /\ kind = "mesh") =>
-                                   /\ loaded.rec = saved
-                                   /\ loaded.recomputed <=> ~Restorable(file)
+\* whatever happened to an object before it was saved (meshed, then moved in place, saved inside a temporary
+\* translation, rotated / scaled and meshed again), the mesh it holds is the mesh of its triangulation - EVERY derived
+\* array (areas, dual sites, Voronoi polygons, edge centres / directions / lengths)
+HeldMesh == CASE kind = "device" -> saved.mesh [] kind = "mesh" -> saved [] kind = "solution" -> saved.mesh [] OTHER -> NoMesh
+SavedMeshIsMeshOfItsTriangulation == (pc \in {"made", "saved", "loaded"} /\ kind # "options") => HeldMesh = recomp
+\* a mesh restored from stored arrays and one recomputed from the triangulation are the same mesh (so the full and
+\* the compressed storage form of one mesh load back as the same mesh)
+MeshRestoredEqualsRecomputed ==
+  /\ (pc = "loaded" /\ kind = "mesh") => /\ loaded.rec = recomp
+                                         /\ loaded.recomputed <=> ~Restorable(file)
+  /\ (pc = "loaded" /\ kind = "device" /\ shape.savemesh) => loaded.mesh = recomp
+  /\ (pc = "loaded" /\ kind = "solution") => loaded.mesh = recomp
 
 \* export of the enumerated records / shapes (materialised by the binding with the real classes)
 Emit == (pc = "made" /\ gen = 1) => PrintT(ToJson([kind |-> kind, shape |-> shape]))
